@@ -18,6 +18,7 @@ type c11WWJob struct {
 	Fresh   bool   `json:"freshIndex"`
 	Other   string `json:"other"` // Y1..Y5
 	PauseAt int64  `json:"pauseAt"`
+	Prop    string `json:"prop,omitempty"` // property the schedule is run for (C11; C15: two bulk requests, acknowledged iff stored)
 }
 
 var c11Others = []string{"Y1 ingest", "Y2 ingest,flush", "Y3 flush", "Y4 rotate", "Y5 ingest,flush,rotate"}
@@ -42,6 +43,10 @@ func c11OtherSteps(o, idx string) ([]schedStep, bool) {
 var c11WWSeq int64
 
 func c11WWRun(w *kernel.Worker, j *c11WWJob, rep *kernel.Report) (*Fail, error) {
+	prop := j.Prop
+	if prop == "" {
+		prop = "C11"
+	}
 	idx := fmt.Sprintf("c11w%d", atomic.AddInt64(&c11WWSeq, 1))
 	die := func(err error) (*Fail, error) {
 		if d, ok := err.(*kernel.Died); ok {
@@ -49,7 +54,7 @@ func c11WWRun(w *kernel.Worker, j *c11WWJob, rep *kernel.Report) (*Fail, error) 
 			if d.Timeout {
 				clause = "deadlock-or-hang"
 			}
-			return &Fail{FP: "C11/" + clause + "/two-writers/" + d.Frame, What: fmt.Sprintf("schedule %s: %s\n%s", jstr(j), d.Exit, trunc(d.Stderr, 2000))}, nil
+			return &Fail{FP: prop + "/" + clause + "/two-writers/" + d.Frame, What: fmt.Sprintf("schedule %s: %s\n%s", jstr(j), d.Exit, trunc(d.Stderr, 2000))}, nil
 		}
 		return nil, err
 	}
@@ -83,7 +88,7 @@ func c11WWRun(w *kernel.Worker, j *c11WWJob, rep *kernel.Report) (*Fail, error) 
 	}
 	for _, s := range append(append([]schedStepRes{}, r.X...), r.Y...) {
 		if s.Err != "" {
-			return &Fail{FP: "C11/two-writers/operation-failed/" + s.Op, What: fmt.Sprintf("schedule %s (held at %s): %s failed: %s", jstr(j), where, s.Op, s.Err)}, nil
+			return &Fail{FP: prop + "/two-writers/operation-failed/" + s.Op, What: fmt.Sprintf("schedule %s (held at %s): %s failed: %s", jstr(j), where, s.Op, s.Err)}, nil
 		}
 	}
 	if err := w.Call("flush", nil, nil); err != nil {
@@ -108,19 +113,19 @@ func c11WWRun(w *kernel.Worker, j *c11WWJob, rep *kernel.Report) (*Fail, error) 
 		switch got[id] {
 		case 1:
 		case 0:
-			fs.Add("C11/two-writers/acknowledged-event-lost/"+site, ctx+fmt.Sprintf(": event %s was acknowledged but is not searchable (returned: %v)", id, got))
+			fs.Add(prop + "/two-writers/acknowledged-event-lost/"+site, ctx+fmt.Sprintf(": event %s was acknowledged but is not searchable (returned: %v)", id, got))
 		default:
-			fs.Add("C11/two-writers/event-duplicated/"+site, ctx+fmt.Sprintf(": event %s is returned %d times", id, got[id]))
+			fs.Add(prop + "/two-writers/event-duplicated/"+site, ctx+fmt.Sprintf(": event %s is returned %d times", id, got[id]))
 		}
 	}
 	for id := range got {
 		if !want[id] {
-			fs.Add("C11/two-writers/unknown-event", ctx+": returned "+id)
+			fs.Add(prop + "/two-writers/unknown-event", ctx+": returned "+id)
 		}
 	}
 	if len(fin[1].Measure) == 1 {
 		if c, _ := ObsInt(fin[1].Measure[0].M["count(*)"]); c != int64(len(want)) {
-			fs.Add("C11/two-writers/count/"+site, ctx+fmt.Sprintf(": stats count = %d, %d events were acknowledged", c, len(want)))
+			fs.Add(prop + "/two-writers/count/"+site, ctx+fmt.Sprintf(": stats count = %d, %d events were acknowledged", c, len(want)))
 		}
 	}
 	_ = delIndex(w, 0, idx)
@@ -128,6 +133,10 @@ func c11WWRun(w *kernel.Worker, j *c11WWJob, rep *kernel.Report) (*Fail, error) 
 }
 
 func c11TwoWriters(rep *kernel.Report, pool *kernel.Pool, budget *kernel.Budget) {
+	c11TwoWritersFor("C11", rep, pool, budget)
+}
+
+func c11TwoWritersFor(prop string, rep *kernel.Report, pool *kernel.Pool, budget *kernel.Budget) {
 	// dry run: lock operations of an ingest into a new / an existing index
 	points := map[bool]int64{}
 	dw, err := pool.BootWorker()
@@ -159,7 +168,7 @@ func c11TwoWriters(rep *kernel.Report, pool *kernel.Pool, budget *kernel.Budget)
 			for _, fresh := range []bool{true, false} {
 				for _, o := range c11Others {
 					for k := int64(1); k <= points[fresh]+1; k++ {
-						emit(c11WWJob{Fresh: fresh, Other: o, PauseAt: k})
+						emit(c11WWJob{Fresh: fresh, Other: o, PauseAt: k, Prop: prop})
 					}
 				}
 			}
